@@ -702,7 +702,7 @@ Lemma pgp_rsa_facts : forall created n e, bitlen n < 65536 -> e < 16777216 ->
   pgp_key_facts (pgp_rsa_body created n e)
   = Ok [(bs "Algorithm", pgp_algo_name 1); (bs "Size", bits_value (bitlen n))].
 Proof.
-  intros created n e Hn He. unfold pgp_key_facts, pgp_key_facts_gen, pgp_rsa_body.
+  intros created n e Hn He. unfold pgp_key_facts, pgp_key_facts_gen, pgp_key_facts_ec, pgp_rsa_body.
   destruct (N_to_be_4_shape created) as (a & b & c & d & Hc). rewrite Hc.
   change ([4] ++ [a; b; c; d] ++ [1] ++ pgp_mpi_enc n ++ pgp_mpi_enc e)
     with ([4; a; b; c; d; 1] ++ pgp_mpi_enc n ++ pgp_mpi_enc e).
@@ -721,7 +721,7 @@ Lemma pgp_dsa_facts : forall created p q g y,
   pgp_key_facts (pgp_dsa_body created p q g y)
   = Ok [(bs "Algorithm", pgp_algo_name 17); (bs "Size", bits_value (bitlen p))].
 Proof.
-  intros created p q g y Hp Hq Hg Hy. unfold pgp_key_facts, pgp_key_facts_gen, pgp_dsa_body.
+  intros created p q g y Hp Hq Hg Hy. unfold pgp_key_facts, pgp_key_facts_gen, pgp_key_facts_ec, pgp_dsa_body.
   destruct (N_to_be_4_shape created) as (a & b & c & d & Hc). rewrite Hc.
   change ([4] ++ [a; b; c; d] ++ [17] ++ pgp_mpi_enc p ++ pgp_mpi_enc q ++ pgp_mpi_enc g ++ pgp_mpi_enc y)
     with ([4; a; b; c; d; 17] ++ pgp_mpi_enc p ++ pgp_mpi_enc q ++ pgp_mpi_enc g ++ pgp_mpi_enc y).
@@ -1715,3 +1715,97 @@ Proof.
       now rewrite curve_from_oid_shown, curve_from_params_shown. }
   split; [rewrite !H by auto; reflexivity|apply H; auto].
 Qed.
+
+(* ---------- multi-prime RSA private keys ---------- *)
+
+(* whatever the version (0: two primes; 1: multi-prime with otherPrimeInfos), an RSAPrivateKey is
+   described as an RSA key of its modulus' bit length *)
+Lemma pkcs1_private_any_version : forall version n,
+  parse_pkcs1_private_gen false version (Some (der_int_enc n))
+  = Ok (Info (bs "PKCS#1 private key") [(bs "Algorithm", bs "RSA"); (bs "Size", bits_value (bitlen n))] [])
+  /\ parse_pkcs1_private_gen false version (Some (der_int_enc n)) = parse_pkcs1_private (Some (der_int_enc n)).
+Proof.
+  intros version n. unfold parse_pkcs1_private_gen, parse_pkcs1_private, pkcs1_attrs. cbn [andb].
+  rewrite twos_der_int_enc, zbitlen_of_N. split; reflexivity.
+Qed.
+
+(* a reader that refuses versions other than 0 loses every multi-prime key *)
+Lemma pkcs1_private_strict_witness :
+  is_ok (parse_pkcs1_private_gen true 1 (Some (der_int_enc f26_n))) = false
+  /\ attr_of "Size" (parse_pkcs1_private_gen false 1 (Some (der_int_enc f26_n))) = Some (bs "2047 bits").
+Proof. split; vm_compute; reflexivity. Qed.
+
+(* ---------- OpenPGP elliptic-curve keys ---------- *)
+
+(* RFC 6637 section 11: the curve OIDs as they appear in a key packet *)
+Definition pgp_oid_of (c : curve) : bytes :=
+  match c with
+  | P256 => [42; 134; 72; 206; 61; 3; 1; 7]
+  | P384 => [43; 129; 4; 0; 34]
+  | P521 => [43; 129; 4; 0; 35]
+  | P224 => []
+  end.
+
+Lemma read_full_1 : forall x l, read_full 1 (x :: l) = Ok ([x], l).
+Proof. reflexivity. Qed.
+
+Lemma pgp_read_point : forall rest tail, N.of_nat (length rest) < 8000 ->
+  pgp_read_mpi (N_to_be 2 (8 * N.of_nat (length (4 :: rest) - 1) + N.size (nth 0 (4 :: rest) 0)) ++ (4 :: rest) ++ tail)
+  = Ok (8 * N.of_nat (length rest) + 3, 4 :: rest, tail).
+Proof.
+  intros rest tail H. unfold pgp_read_mpi. cbn [length nth Nat.sub]. rewrite Nat.sub_0_r.
+  change (N.size 4) with 3.
+  set (bits := 8 * N.of_nat (length rest) + 3).
+  replace 2%nat with (length (N_to_be 2 bits)) at 1 by apply length_N_to_be.
+  rewrite read_full_app. cbn [bind].
+  rewrite be_to_N_N_to_be by (change (256 ^ N.of_nat 2) with 65536; unfold bits; lia).
+  assert (Hc : (bits + 7) / 8 = N.of_nat (length (4 :: rest))).
+  { unfold bits. cbn [length]. rewrite Nat2N.inj_succ.
+    replace (8 * N.of_nat (length rest) + 3 + 7) with ((N.of_nat (length rest) + 1) * 8 + 2) by lia.
+    rewrite N.div_add_l by lia. change (2 / 8) with 0. lia. }
+  rewrite Hc, Nat2N.id, read_full_app. reflexivity.
+Qed.
+
+(* an ECDSA key over P-256/384/521: algorithm and curve, and no size at all *)
+Lemma pgp_ecdsa_facts : forall created c rest,
+  match c with P224 => False | _ => True end -> N.of_nat (length rest) < 8000 ->
+  pgp_key_facts (pgp_ec_body created 19 (pgp_oid_of c) (4 :: rest) [])
+  = Ok [(bs "Algorithm", bs "ECDSA"); (bs "Curve", curve_nist c)].
+Proof.
+  intros created c rest Hc Hl. unfold pgp_key_facts, pgp_key_facts_gen, pgp_key_facts_ec, pgp_ec_body.
+  destruct (N_to_be_4_shape created) as (a & b & c0 & d & Hcr). rewrite Hcr.
+  match goal with |- context [[4] ++ [a; b; c0; d] ++ [19] ++ ?r] =>
+    change ([4] ++ [a; b; c0; d] ++ [19] ++ r) with ([4; a; b; c0; d; 19] ++ r) end.
+  change 6%nat with (length [4; a; b; c0; d; 19]). rewrite read_full_app. cbn [bind nth].
+  change (4 =? 4) with true. change (19 =? 1) with false. change (19 =? 2) with false. change (19 =? 3) with false.
+  change (19 =? 17) with false. change (19 =? 16) with false. change (19 =? 18) with false. change (19 =? 19) with true.
+  cbn [negb orb]. unfold pgp_ec_facts, pgp_read_oid.
+  destruct c; try contradiction; cbn [pgp_oid_of curve_nist];
+    (match goal with |- context [[?x] ++ ?o ++ ?t] => change ([x] ++ o ++ t) with (x :: (o ++ t)) end;
+     rewrite read_full_1; cbn [bind nth];
+     match goal with |- context [gen.PgpTables.pgp_max_oid_len <? ?k] =>
+       change (gen.PgpTables.pgp_max_oid_len <? k) with false end; cbv iota;
+     rewrite Nat2N.id, read_full_app; cbn [bind];
+     rewrite pgp_read_point by assumption; cbn [bind];
+     change (19 =? 19) with true; cbv iota;
+     match goal with |- context [pgp_curve_of_oid ?o] =>
+       let v := eval vm_compute in (pgp_curve_of_oid o) in change (pgp_curve_of_oid o) with v end;
+     cbv iota; reflexivity).
+Qed.
+
+(* ECDH subkeys (NIST curve, Curve25519) and EdDSA: closed instances *)
+Lemma pgp_ec_examples :
+  pgp_key_facts (pgp_ec_body 7 18 (pgp_oid_of P384) (4 :: repeat 9 96) [3; 1; 9; 8])
+    = Ok [(bs "Algorithm", bs "ECDH"); (bs "Curve", bs "P-384")]
+  /\ pgp_key_facts (pgp_ec_body 7 18 [43; 6; 1; 4; 1; 151; 85; 1; 5; 1] (64 :: repeat 9 32) [3; 1; 8; 7])
+    = Ok [(bs "Algorithm", bs "ECDH")]
+  /\ pgp_key_facts (pgp_ec_body 7 22 [43; 6; 1; 4; 1; 218; 71; 15; 1] (64 :: repeat 9 32) [])
+    = Ok [(bs "Algorithm", bs "EdDSA"); (bs "Curve", bs "Ed25519")].
+Proof. repeat split; vm_compute; reflexivity. Qed.
+
+(* half the bits of an uncompressed point's MPI is the field size for P-256 and P-384 but 528 for P-521:
+   a size derived that way is not the key's *)
+Lemma pgp_point_half_bits_witness :
+  pgp_point_half_bits (4 :: repeat 1 64) = 256 /\ pgp_point_half_bits (4 :: repeat 1 96) = 384
+  /\ pgp_point_half_bits (4 :: repeat 1 132) = 528.
+Proof. repeat split; vm_compute; reflexivity. Qed.
